@@ -22,6 +22,7 @@ func init() {
 	for k, v := range map[string]externalFn{
 		"fmt.Sprintf":                      extSprintf,
 		"fmt.Errorf":                       extErrorf,
+		"fmt.Fprintf":                      extFprintf,
 		"errors.New":                       extErrorsNew,
 		"strings.Join":                     extStringsJoin,
 		"strings.HasSuffix":                extStringsHasSuffix,
@@ -133,10 +134,105 @@ func fmtArg(fr *frame, verb byte, a value) value {
 	panic(Inconclusive{fmt.Sprintf("fmt verb %%%c with argument %T", verb, a)})
 }
 
+// symbolicFormat turns a rope used as a format string into a concrete format
+// in which every symbolic part that cannot contain '%' is an opaque
+// placeholder. Whether a String atom contains '%' is a decision; on the
+// containing side the atom is pinned to one of a few representative contents
+// (so that the path stays exact); other contents end the path as inconclusive.
+func symbolicFormat(fr *frame, r *Rope) (string, []Part) {
+	c := fr.i.ctx
+	var sb strings.Builder
+	var opaque []Part
+	hold := func(p Part) {
+		if len(opaque) >= 26 {
+			panic(Inconclusive{"format string with too many symbolic parts"})
+		}
+		sb.WriteString("\x00" + string(rune('A'+len(opaque))) + "\x00")
+		opaque = append(opaque, p)
+	}
+	for _, p := range r.Parts {
+		switch p.Kind {
+		case PLit:
+			sb.WriteString(p.Lit)
+		case PCode, PInt:
+			hold(p)
+		case PCell:
+			if c.Decide(fmt.Sprintf("(= %s 37)", p.Lit)) {
+				sb.WriteString("%")
+			} else {
+				hold(p)
+			}
+		case PAtom:
+			if c.AtomExcludes(p.Lit, "%") || !c.Decide(fmt.Sprintf("(str.contains %s \"%%\")", p.Lit)) {
+				hold(p)
+				break
+			}
+			pinned := false
+			for _, cand := range []string{"%", "100% sure", "a%%b", "50%"} {
+				if c.Decide(fmt.Sprintf("(= %s %s)", p.Lit, smtStrLit(cand))) {
+					sb.WriteString(cand)
+					pinned = true
+					break
+				}
+			}
+			if !pinned {
+				panic(Inconclusive{"format string atom containing '%' outside the representative contents"})
+			}
+		default:
+			panic(Inconclusive{"symbolic format string part"})
+		}
+	}
+	return sb.String(), opaque
+}
+
+func restoreOpaque(v value, opaque []Part) value {
+	s, ok := v.(string)
+	if !ok || len(opaque) == 0 || !strings.Contains(s, "\x00") {
+		return v
+	}
+	var parts []value
+	for len(s) > 0 {
+		i := strings.IndexByte(s, 0)
+		if i < 0 || i+2 >= len(s) || s[i+2] != 0 {
+			parts = append(parts, s)
+			break
+		}
+		if i > 0 {
+			parts = append(parts, s[:i])
+		}
+		parts = append(parts, &Rope{Parts: []Part{opaque[int(s[i+1]-'A')]}})
+		s = s[i+3:]
+	}
+	return ropeConcat(parts...)
+}
+
+func extFprintf(fr *frame, args []value) value {
+	// the only writer the repository formats into is a *strings.Builder
+	w, ok := args[0].(iface)
+	if !ok {
+		panic(Inconclusive{"fmt.Fprintf to an unknown writer"})
+	}
+	if _, isPtr := w.v.(*value); !isPtr || !strings.Contains(fmt.Sprint(w.t), "strings.Builder") {
+		panic(Inconclusive{"fmt.Fprintf to a writer other than *strings.Builder"})
+	}
+	s := extSprintf(fr, args[1:])
+	bargs := []value{w.v, s}
+	*builderSlot(bargs) = ropeConcat(builderGet(bargs), s)
+	return tuple{ropeLen(s), iface{}}
+}
+
 func extSprintf(fr *frame, args []value) value {
+	var opaque []Part
 	format, ok := args[0].(string)
 	if !ok {
-		panic(Inconclusive{"symbolic format string"})
+		r, isRope := args[0].(*Rope)
+		if !isRope {
+			panic(Inconclusive{"symbolic format string"})
+		}
+		format, opaque = symbolicFormat(fr, r)
+		if len(opaque) > 0 && strings.Contains(format, "%\x00") {
+			panic(Inconclusive{"'%' directly before a symbolic part of a format string"})
+		}
 	}
 	var fargs []value
 	if args[1] != nil {
@@ -172,6 +268,12 @@ func extSprintf(fr *frame, args []value) value {
 		}
 		parts = append(parts, fmtArg(fr, verb, fargs[ai]))
 		ai++
+	}
+	for i := range parts {
+		parts[i] = restoreOpaque(parts[i], opaque)
+	}
+	if ai < len(fargs) {
+		parts = append(parts, "%!(EXTRA ...)") // never equal to an expected output
 	}
 	return ropeConcat(parts...)
 }
